@@ -1,5 +1,6 @@
 SPECIFICATION Spec
 CONSTANTS
   NCallers = 3
+  RecyclesWrappers = FALSE
   OnceIsNilCheck = FALSE
 CHECK_DEADLOCK FALSE
